@@ -102,6 +102,27 @@ CHECKS["C07"] = ("proof",
     "Trusted: hashes uninterpreted, struct/BytesIO models, ArithUint256.__truediv__ (float division of a 256-bit int) is an unknown "
     "quotient in the link-only proofs. Not decided: retarget arithmetic for all values (binary64 steps), PoW values, forks.",
     "symbolic execution of the real AST on arbitrary header bytes, VCs by z3/cvc5; bounded differential vs integer reference", "3 C07")
+CHECKS["C13"] = ("proof",
+    "Deductive on the real Account/Wallet/WalletStorage code with fully symbolic strings: encrypt then decrypt with the same password "
+    "restores seed/keys; a wrong password or any tampered stored state that does not decrypt leaves the account unchanged; every "
+    "dictionary handed to storage hides seed and private key whenever encrypt-on-disk is on and a password is set; Wallet "
+    "lock/unlock/encrypt; WalletStorage.write over a file-system model: after EVERY effect (open, write, flush, fsync, close, rename, "
+    "chmod) the durable view of the wallet path is the complete old or the complete new content. Bounded (labelled): the real "
+    "aes_encrypt/aes_decrypt/scrypt bodies, end-to-end on a real file system, pack/unpack. Known findings C13-F1, C13-F2.",
+    "Trusted: AES pair contract dec(pw, enc(pw, iv, p)) = p and the idealised-cipher assumption (a text under pw does not decrypt under "
+    "pw2), extended-key string inverse (C06), the file-system model (only fsync makes content durable, rename atomic). At most 2 "
+    "accounts per proof.",
+    "symbolic execution of the real AST with uninterpreted crypto and a crash-aware file-system model, VCs by z3/cvc5", "3 C13")
+CHECKS["C06"] = ("proof",
+    "Deductive: CKDpriv/CKDpub message construction (hardened threshold, 0x00||ser256(k)||ser32(i) vs serP(K)||ser32(i)), child key "
+    "plumbing, N(CKDpriv) = CKDpub(N) for non-hardened indices, master key from seed, the 78-byte extended-key layout and its decoder "
+    "(inverse, version dispatch, padding byte), Base58Check framing (checksum accepted exactly when right), address construction and "
+    "classification, ensure_address_gap generating exactly gap - existing_gap keys at consecutive indices, per-account chain keys. "
+    "Bounded (labelled): Base58 and mnemonic numeral loops vs independent encoders, published BIP32 vectors 1-3, an own pure-Python "
+    "secp256k1/BIP32 reference on 4 seeds x 9 paths, real accounts regenerating the same addresses.",
+    "Trusted: HMAC-SHA512/SHA-256/RIPEMD-160 uninterpreted, coincurve operations with one group-law instance, the modular contract "
+    "of Base58.encode/decode (checked bounded only), DB returns address rows by n descending. Elliptic-curve arithmetic not decided.",
+    "symbolic execution of the real AST with uninterpreted crypto, VCs by z3/cvc5; bounded differential vs reference implementations", "3 C06")
 NOT_YET = {}
 
 def main():
